@@ -147,12 +147,56 @@ let run_compose d sep =
   done with End_of_file -> ());
   print_string (Buffer.contents out)
 
+(* C20: one msgpack message (hex) per line: read it with the extracted reader, write it back with the
+   extracted writer, and print what Python receives through the class field names *)
+let rec mp_str (v : mp) : Stdlib.String.t =
+  match v with
+  | MNil -> "N"
+  | MUInt n -> "I" ^ n_to_string n
+  | MF64 b -> "F" ^ n_to_string b
+  | MBin b -> "B" ^ hex_of_bytes b
+  | MArr l -> "[" ^ String.concat "," (List.map mp_str l) ^ "]"
+
+let coq_string_of (s : Stdlib.String.t) : Model.string =
+  let rec go i acc = if i < 0 then acc else go (i - 1) (String (ascii_of_char s.[i], acc)) in
+  go (Stdlib.String.length s - 1) EmptyString
+
+let run_wire () =
+  let out = Buffer.create (1 lsl 20) in
+  let i = ref 0 in
+  (* first line: the Python field names, "tok a,b,c err d,e,f" *)
+  let names l = List.map coq_string_of (String.split_on_char ',' l) in
+  let (tok_names, err_names) =
+    match split (input_line stdin) with
+    | ["tok"; a; "err"; b] -> (names a, names b)
+    | _ -> failwith "wire: field names expected" in
+  (try while true do
+    let line = String.trim (input_line stdin) in
+    let bytes = List.map n_of_int (List.init (String.length line / 2) (fun k -> int_of_string ("0x" ^ String.sub line (2*k) 2))) in
+    Printf.bprintf out "CASE %d\n" !i; incr i;
+    (match decode (nat_of_int 8) bytes with
+     | Some (v, []) ->
+       let back = encode v in
+       Printf.bprintf out "WIRE %s\n" (if back = bytes then "same" else "reencoded-differs " ^ hex_of_bytes back)
+     | Some (_, _) -> Buffer.add_string out "WIRE trailing-bytes\n"
+     | None -> Buffer.add_string out "WIRE undecodable\n");
+    (match py_decode tok_names err_names (nat_of_int 8) bytes with
+     | Some ((ts, es), lit) ->
+       List.iter (fun fields -> Printf.bprintf out "PT %s\n" (String.concat " " (List.map (fun (n, v) -> cstr n ^ "=" ^ mp_str v) fields))) ts;
+       List.iter (fun fields -> Printf.bprintf out "PE %s\n" (String.concat " " (List.map (fun (n, v) -> cstr n ^ "=" ^ mp_str v) fields))) es;
+       Printf.bprintf out "PLIT %s\n" (hex_of_bytes lit)
+     | None -> Buffer.add_string out "PY none\n");
+    if Buffer.length out > (1 lsl 19) then (print_string (Buffer.contents out); Buffer.clear out)
+  done with End_of_file -> ());
+  print_string (Buffer.contents out)
+
 let () =
   let mode = if Array.length Sys.argv > 1 then Sys.argv.(1) else "" in
   let d = not (Array.length Sys.argv > 2 && Sys.argv.(2) = "release") in
   match mode with
   | "buf" -> run_buf d
   | "reflex" -> run_reflex ()
+  | "wire" -> run_wire ()
   | "compose" -> run_compose d (Array.length Sys.argv > 3 && Sys.argv.(3) = "sep")
   | "lex" -> run_lex d (Array.length Sys.argv > 3 && Sys.argv.(3) = "sep") false
   | "lexa" -> run_lex d (Array.length Sys.argv > 3 && Sys.argv.(3) = "sep") true
